@@ -102,3 +102,20 @@ Proof.
   - intros D io_ret g R. exact (exit_cancels recv_net D io_ret g R p_recv_main Pr Xr).
   - intros D io_ret g R. exact (exit_cancels hash_net D io_ret g R p_hash_main Ph Xh).
 Qed.
+
+(* recvFileDataV2 after the success signal: `<-saveDone` (fix d144b66).  The channel is
+   unbuffered, nobody sends on it, the saver closes it when it exits (defer), the saver has a
+   smaller rank than main; main waits for it once, in the arm that received the success
+   signal, and re-checks the context before it reads the digest.  So in a cancelled world the
+   wait is covered by theorem B like every other wait for a closer (W3). *)
+Lemma recv_main_waits_for_saver :
+  capof recv_net ch_recv_SaveData_1 = 0 /\ sender recv_net ch_recv_SaveData_1 = None /\
+  existsb (Nat.eqb ch_recv_SaveData_1) (defer_close (info recv_net p_recv_SaveData)) = true /\
+  closer_ok recv_net p_recv_main ch_recv_SaveData_1 = true /\
+  count (is_recvclose ch_recv_SaveData_1) (all_stmts (info recv_net p_recv_main)) = 1 /\
+  underL ch_recv_recvFileDataV2_0 ch_recv_SaveData_1 (body (info recv_net p_recv_main)) = true /\
+  body (info recv_net p_recv_main) =
+    [ Sel [ (RecvAlt ch_recv_recvFileDataV2_0,
+             [ RecvClose ch_recv_SaveData_1; IfCtxExit; RecvClose ch_recv_CalculateMD5_0; Return ]);
+            (DoneAlt, [ Return ]) ] ].
+Proof. vm_compute. repeat split. Qed.
